@@ -31,7 +31,7 @@ def build(rng, casedir, index, tier, stable=None, size=None, nrec=None, tags="sa
     walks = ggaf.make_walks(g, rng, nrec, maxlen=rng.choice([3, 8, 14]), forced=nrec >= 8)
     recs = []
     for i, wk in enumerate(walks):
-        extra = tags
+        extra = tags if tags != "safe" else rng.choice(["safe", "grammar_plain"])
         if long_lines and rng.random() < 0.3:
             extra = [f"zl:Z:{'x' * rng.randint(500, 3000)}"]
         recs.append(ggaf.make_record(g, rng, wk, f"r{index}_{i}", offsets=offsets, tags=extra, name_space=name_space and rng.random() < 0.3))
